@@ -52,7 +52,11 @@ def systems(draw, max_looms=2, max_procs=2, max_threads=3, max_cpus=3, models=No
         ncpus = draw(st.integers(1, max_cpus))
         stride = draw(st.sampled_from([1, 1, 2, 5]))
         base = draw(st.sampled_from([0, 0, 3]))
-        cpus = [[i, base + i * stride] for i in range(ncpus)]
+        phys = [base + i * stride for i in range(ncpus)]
+        if ncpus > 1 and draw(st.integers(0, 2)) == 0:
+            # logical index order and physical id order differ (the rows follow the physical ids)
+            phys = list(draw(st.permutations(phys)))
+        cpus = [[i, phys[i]] for i in range(ncpus)]
         nprocs = draw(st.integers(1, max_procs))
         first = True
         if restart:
